@@ -92,6 +92,7 @@ static uint32_t next_ev_id;
 static struct {
 	int target;
 	bool accepted;
+	bool withdrawn; /* a fibre_kill inside the same pass may have withdrawn it */
 	int64_t p0; /* level-0 point before which the (outermost) ISR ran */
 	uint64_t ev;
 	int pass;
@@ -135,6 +136,9 @@ static struct {
 static int nreqs;
 static bool req_overflow;
 static uint64_t last_idle_ev; /* event count at the start of the last pass that found nothing pending and saw no request */
+/* a fibre_kill issued from inside a fibre may or may not have withdrawn the requests that arrived while it ran; from then on
+ * a later request for that fibre is no longer known to be its only reason to run */
+static bool never_fresh[NFIB];
 static int req_open(int f)
 {
 	if (nreqs >= MAXREQ) {
@@ -149,7 +153,7 @@ static int req_open(int f)
 	/* fresh: the target has no other reason to run.  Only the waiters H, P, Q qualify, and only if every earlier
 	 * request for the same fibre was made before the scheduler last reported that nothing at all is pending
 	 * (an earlier request may still sit undrained in the queue even after its fibre has run once) */
-	reqs[nreqs].fresh = (f == FH || f == FP || f == FQ);
+	reqs[nreqs].fresh = (f == FH || f == FP || f == FQ) && !never_fresh[f];
 	for (int i = 0; i < nreqs; i++)
 		if (reqs[i].target == f && !reqs[i].withdrawn && (!reqs[i].ret || reqs[i].ret > last_idle_ev))
 			reqs[nreqs].fresh = false;
@@ -224,10 +228,43 @@ static int body_Y(fibre_t *f)
 	PT_END();
 }
 
+static int s_kick; /* 1: the sleeper runs Q before it asks for its timeout, 2: it kills P (both drain the interrupt requests) */
+static void wrap_api_begin(void);
+static void wrap_api_end(void);
 static bool s_timeout(void)
 {
 	note_dispatch(FS);
 	in_body = true;
+	if (s_kick) {
+		/* an interrupt that woke S itself is drained here, so that S asks for a timeout while already runnable */
+		shim_harness_point();
+		wrap_api_begin();
+		if (s_kick == 1) {
+			vh_sb_add(&evlog, "S:run(Q) ");
+			work[FQ]++;
+			int rq = req_open(FQ);
+			fibre_run(&fibQ);
+			req_close(rq, true);
+			if (work[FQ] > required[FQ])
+				required[FQ] = work[FQ];
+			if (!pending_since_ev[FQ])
+				pending_since_ev[FQ] = ++ev_clock;
+		} else {
+			bool kr = fibre_kill(&fibP);
+			vh_sb_add(&evlog, "S:kill(P)=%d ", kr);
+			required[FP] = 0;
+			pending_since_ev[FP] = 0;
+			for (int i = 0; i < nreqs; i++)
+				if (reqs[i].target == FP && !reqs[i].served)
+					reqs[i].withdrawn = true;
+			for (int i = 0; i < nrecs; i++)
+				if (recs[i].target == FP)
+					recs[i].withdrawn = true; /* recorded so far = accepted before the kill returned */
+			never_fresh[FP] = true;
+		}
+		wrap_api_end();
+		VH_COUNT("sleeper_ran_or_killed_another_fibre_before_sleeping");
+	}
 	bool r = fibre_timeout(sleeper_due);
 	sleeper_active = !r;
 	return r;
@@ -332,6 +369,7 @@ static void post_wakeup(int f)
 	if (nrecs < MAXREC) {
 		recs[nrecs].target = f;
 		recs[nrecs].accepted = ok;
+		recs[nrecs].withdrawn = false;
 		recs[nrecs].p0 = cur_isr_p0;
 		recs[nrecs].ev = ev_clock;
 		recs[nrecs].pass = in_pass ? cur_pass : -1;
@@ -386,6 +424,7 @@ static void post_event(void)
 	if (nrecs < MAXREC) {
 		recs[nrecs].target = FH;
 		recs[nrecs].accepted = ok;
+		recs[nrecs].withdrawn = false;
 		recs[nrecs].p0 = cur_isr_p0;
 		recs[nrecs].ev = ev_clock;
 		recs[nrecs].pass = in_pass ? cur_pass : -1;
@@ -438,6 +477,7 @@ typedef struct {
 	bool useY, useS, useH;
 	int s_rounds;
 	const char *script; /* p pass, r fibre_run(Y), R fibre_run(H), k fibre_kill(Y), K fibre_kill(S), e event from main context */
+	int s_kick;	    /* see s_timeout() */
 } scenario_t;
 
 static const scenario_t scenarios[] = {
@@ -449,6 +489,8 @@ static const scenario_t scenarios[] = {
 	{ "handler + yielder, run and kill between passes", true, false, true, 0, "pprpkprpp" },
 	{ "handler + sleeper, kill the sleeper", false, true, true, 2, "ppKppep" },
 	{ "event from main context then passes", true, true, true, 1, "eppRpp" },
+	{ "handler + sleeper that runs another fibre before it sleeps", false, true, true, 2, "ppppp", 1 },
+	{ "handler + sleeper that kills another fibre before it sleeps", false, true, true, 2, "ppppp", 2 },
 };
 #define NSCEN (sizeof(scenarios) / sizeof(scenarios[0]))
 
@@ -514,7 +556,7 @@ static void do_pass(void)
 	/* C03(b): requests that completed before the final check */
 	bool after_final = rec_overflow;
 	for (int i = first_rec; i < nrecs; i++) {
-		if (!recs[i].accepted)
+		if (!recs[i].accepted || recs[i].withdrawn)
 			continue;
 		bool before_final = L >= 0 && recs[i].p0 >= 0 && recs[i].p0 <= L;
 		int f = recs[i].target;
@@ -675,6 +717,8 @@ static void setup(const scenario_t *sc)
 	memset(dispatches, 0, sizeof(dispatches));
 	sleeper_active = false;
 	s_rounds_left = sc->s_rounds;
+	s_kick = sc->s_kick;
+	memset(never_fresh, 0, sizeof(never_fresh));
 	nevs = 0;
 	max_inv_received = 0;
 	next_ev_id = 1;
